@@ -12,8 +12,10 @@ n = int(sys.argv[2])
 seed = int(sys.argv[3]) if len(sys.argv) > 3 else 0
 ctx = Ctx("DEV", "quick", seed)
 mod.check_part(ctx, n, "DEV")
-for v in ctx.violations[:15]:
+untagged = [v for v in ctx.violations if not v[1].get("finding_tag")]
+for v in untagged[:15]:
     print(("(no input) " if v[2] else "") + v[0][:700])
+print(len(untagged), "violations without a finding tag;", len(ctx.violations) - len(untagged), "tagged (known findings that do not belong to the DEV pseudo-property)")
 print(len(ctx.violations), "violations;", ctx.coverage["correspondence"])
 import shutil
 shutil.rmtree(ctx.tmp, ignore_errors=True)
